@@ -89,6 +89,12 @@ def generator_rules(chk, m, rule_id='R15.1'):
          ['index', 'toc', ['${id}', '${title.2}', 'sect${num}']], [{}, {'id': 'intro', 'title': 'My Intro Page'}, {}, {'title': 'Other Words Here'}, {}], {},
          ('index.html', 'toc.html', 'sect1.html', 'Other-Words.html', 'sect2.html')),
         ('only static names: the last one becomes the alternative', ['one', 'two'], [{}, {}], {}, ('one.html', 'two.html')),
+        ('forbidden characters are taken one by one (a caret first, a hyphen in the middle)', [['${id}', 'f${num.2}']], [{'id': 'x^y-zb'}, {'id': 'abc'}],
+         {'charsub': ('^a-c', '_')}, ('x_y_zb.html', '_b_.html')),
+        ('a word limit counts words, whatever separates them', [['${title.2}', 'w${num.2}']], [{'title': 'Advanced  usage\tof macros'}, {'title': ' Lead and trail '}], {},
+         ('Advanced-usage.html', 'Lead-and.html')),
+        ('a number that outgrows its width keeps all its digits', [['s${num.1}']], [{}] * 11, {},
+         ('s1.html', 's2.html', 's3.html', 's4.html', 's5.html', 's6.html', 's7.html', 's8.html', 's9.html', 's10.html', 's11.html')),
     ]
     fn = None
     for label, files, requests, kw, want in scen:
